@@ -43,7 +43,7 @@ RULE = ('a case is a fault plan: network, k<=4 fake providers with priorities (t
         'the tier alphabet for k<=3 (thorough: k<=4), every weak priority order, max_errors, provider settings and '
         'every one of the 13 methods, cache off. Non-trivial = a plan containing an operation in which every '
         'top-priority provider fails to answer the queried method (so fail-over or failure handling is exercised), '
-        'or an operation answered from the cache without asking a provider; distinct by the whole case.')
+        'or a cached address summary (getcacheaddressinfo) judged against the complete UTXO answers, or an operation answered from the cache without asking a provider; distinct by the whole case.')
 ASSUMPTIONS = [
     'faults are immediate exceptions/values; a time-out is the exception requests raises, not elapsed time',
     'a provider "answers" iff it neither raises nor returns False (the library\'s own reading of "empty response"); '
@@ -788,6 +788,14 @@ class _Run(object):
             obs = self.observe(srv.blockcount)
             self.judge_blockcount(obs, snapshot, _ST.log[pre:], ctor=False)
             return
+        if m == 'addrinfo':
+            # what the cache says about an address (no provider is involved)
+            pre = len(_ST.log)
+            obs = self.observe(lambda: srv.getcacheaddressinfo(U.addr[a['addr']]))
+            if len(_ST.log) != pre:
+                raise HarnessError('getcacheaddressinfo asked providers')
+            self.judge_addrinfo(a, obs)
+            return
         if m == 'estimatefee':
             call = lambda: srv.estimatefee(a['blocks'])
         elif m == 'getbalance':
@@ -822,6 +830,36 @@ class _Run(object):
         pre = len(_ST.log)
         obs = self.observe(call)
         self.judge(m, a, obs, snapshot, _ST.log[pre:])
+
+    # ---- oracle: cached address summary ---------------------------------------------------------------
+    def judge_addrinfo(self, a, obs):
+        """getcacheaddressinfo: a stored UTXO count is a claim about the address ("n outputs, worth b"); it must be
+        the summary of a complete UTXO answer / of the completely cached history - in the static universe that is
+        the chain's own list (with or without the spends of the unconfirmed transaction)."""
+        U = _ST.U
+        ctx = self.ctx
+        if obs[0] != 'ret' or not isinstance(obs[1], dict):
+            self.disc('unexpected-exception.addrinfo', 'getcacheaddressinfo -> %r' % (obs,))
+            return
+        d = obs[1]
+        if d.get('n_utxos') is None:
+            ctx.klass('addrinfo.no-claim')
+            return
+        if self.tainted or a['addr'] in self.lied_empty:
+            ctx.klass('addrinfo.not-judged')
+            return
+        conf = U.utxos(a['addr'])
+        mem_spent = set((i['prev'], i['n']) for t in U.txs if t['height'] is None for i in t['ins'])
+        mem = [u for u in conf if (U.txs[u[0]]['txid'], u[1]) not in mem_spent]
+        ok = set((sum(x[2] for x in lst), len(lst)) for lst in (conf, mem))
+        got = (d.get('balance'), d.get('n_utxos'))
+        if got in ok:
+            ctx.klass('addrinfo.claim-correct')
+            self.served('addrinfo')
+            return
+        self.disc('cache.addrinfo.fabricated', 'getcacheaddressinfo(address %d) reports balance %r in %r unspent outputs; '
+                  'the complete UTXO answers for this address are %r (no provider reported anything else)' %
+                  (a['addr'], got[0], got[1], sorted(ok)))
 
     # ---- oracle: blockcount --------------------------------------------------------------------------
     def judge_blockcount(self, obs, snapshot, entries, ctor):
@@ -1535,6 +1573,17 @@ def cache_scenarios(ctx):
                             [q('getutxos', addr=addr, after=-1, limit=20)]))
                 out.append((['gettransaction'], [q('gettransaction', tx=tx)] + mid(0, False, reopen) +
                             [q('getbalance', addrs=[addr]), q('gettransactions', addr=addr, after=-1, limit=20)]))
+    # what the cache claims about an address after its history / its UTXOs were read once or twice
+    for addr in (0, 1):
+        gt = q('gettransactions', addr=addr, after=-1, limit=20)
+        gu = q('getutxos', addr=addr, after=-1, limit=20)
+        ai = q('addrinfo', addr=addr)
+        gb = q('getbalance', addrs=[addr])
+        for seq in ([gt, ai], [gu, ai], [gt, gu, ai, gb], [gt, gu, gu, ai, gb], [gu, gu, ai, gb], [gt, gt, ai],
+                    [gt, gu, gt, gu, ai, gb], [q('gettransactions', addr=addr, after=0, limit=20), ai],
+                    [gt, q('getutxos', addr=addr, after=1, limit=20), ai, gb]):
+            for reopen in tf:
+                out.append((['gettransactions', 'getutxos'], seq[:-1] + mid(0, False, reopen) + seq[-1:]))
     # fee estimate while every provider is down (documented default), then again when they are back
     for blocks in (1, 3, 25):
         for dt in (1, 599, 601):
@@ -1625,7 +1674,8 @@ def plan_strategy(ctx, cached):
                 qq('gettransactions', {'addr': ad, 'after': 0, 'limit': 20}),
                 qq('gettransaction', {'tx': txn}), qq('getrawtransaction', {'tx': txn}),
                 qq('isspent', {'tx': txn, 'n': 0}), qq('isspent', {'tx': txn, 'n': 1}),
-                qq('getblock', {'parse': True, 'byhash': False, 'limit': 10})])
+                qq('getblock', {'parse': True, 'byhash': False, 'limit': 10}),
+                qq('addrinfo', {'addr': ad}), qq('addrinfo', {'addr': ad})])
             ops += draw(st.lists(st.one_of(follow, follow, follow, tick, outage, reopen), min_size=1, max_size=4))
         elif cached:
             # scenario skeletons: query, let time pass / providers fail / reopen, query the same thing again
